@@ -29,12 +29,72 @@ def escape_step_harness():
                    inputs=['c', 'do_finish', 'cpm', 'match'], required_witness=('witness: accepted', 'witness: rejected', 'witness: inside a'),
                    note='inductive step: one parse() (+ optional finish()) from an arbitrary decoder state satisfying the representation invariant; covers literals of any length')
 
+def buildint_harness():
+    rx = P + r'buildInt\('
+    shapes = [dict(BUILDINT=core.csym(FAM, rx), BASE=b, SUF=s, _tag='base=%d,suffix_len=%d' % (b, s), _witness=('witness: literal built',) + (() if b == 10 and s == 0 else ('witness: value above',)))
+              for b in (2, 8, 10, 16) for s in (0, 1, 2, 3)]
+    return Harness('I1.buildInt', FAM, [rx], 'c16_buildint.c', stubs=[r'^std::__cxx11::sto(ll|ull)\(', r'chaiscript::const_var'], shapes=shapes,
+                   opts=['--unwind', '10'], timeout=300, mem_gb=6, string_model=True, inputs=['V', 'text'],
+                   note='all 64-bit values V, every valid suffix spelling (case variants), 4 bases')
+
+WORDS = ['true', 'false', 'Infinity', 'NaN', '__LINE__', '__FILE__', '__FUNC__', '__CLASS__', '_']
+RESERVED = ['def', 'fun', 'while', 'for', 'if', 'else', '&&', '||', ',', 'auto', 'return', 'break', 'true', 'false', 'class', 'attr', 'var', 'global', 'GLOBAL', '_',
+            '__LINE__', '__FILE__', '__FUNC__', '__CLASS__']
+
+def fnv_constants():
+    """offset basis, prime and the case labels of Id()'s switch, read out of the IR of the current tree"""
+    import re
+    ll = core.fread(FAM.build())
+    m = re.search(r'^define [^\n]*2IdEb\([^\n]*\{\n(.*?)^\}', ll, re.M | re.S)
+    body = m.group(1) if m else ''
+    cases = sorted({int(x) & 0xffffffff for x in re.findall(r'^\s+i32 (-?\d+), label', body, re.M)})
+    prime = 16777619 if re.search(r'mul i32 [^\n]*, 16777619', body) else None
+    basis = 0x811c9dc5 if (re.search(r'-2128831035', body) or re.search(r'2166136261', body)) else None
+    return basis, prime, cases
+
+def collisions(words):
+    """smtq: z3 finds, per keyword, a different identifier with the same FNV-1a hash (cached per hash constants)"""
+    import json, os, subprocess
+    basis, prime, cases = fnv_constants()
+    if basis is None or prime is None: raise core.BuildError('FNV-1a constants not found in the IR of Id(bool): the hash changed; smtq model does not apply')
+    out = os.path.join(core.CACHE, 'smtq', 'fnv.%s.json' % core.sha(str(basis), str(prime), ' '.join(words), core.fread(os.path.join(core.VERIF, 'irbmc', 'smtq_fnv.py'))))
+    with core.klock(out):
+        if not os.path.exists(out):
+            os.makedirs(os.path.dirname(out), exist_ok=True)
+            r = core.run(['python3-vt', os.path.join(core.VERIF, 'irbmc', 'smtq_fnv.py'), hex(basis), hex(prime), out + '.tmp'] + words, timeout=1200)
+            if r.returncode != 0: raise core.BuildError('smtq_fnv failed: ' + r.stderr[-800:])
+            os.replace(out + '.tmp', out)
+    return json.load(open(out)), cases
+
+def id_harness(tier):
+    rx = P + r'Id\(bool'
+    d = {'ID': core.csym(FAM, rx), 'MK_CONST': core.csym(FAM, P + r'make_node<chaiscript::eval::Constant_AST_Node<.*>, chaiscript::Boxed_Value>\('),
+         'MK_ID': core.csym(FAM, P + r'make_node<chaiscript::eval::Id_AST_Node<[^,]*> >\('),
+         'PUSH_BACK': core.csym(FAM, r'std::vector<std::unique_ptr<chaiscript::eval::AST_Node_Impl<.*::push_back\(std::unique_ptr<.*&&\)'),
+         'VALIDATE': core.csym(FAM, P + r'validate_object_name\('), 'SKIPWS': core.csym(FAM, P + r'SkipWS\(bool'), 'EOL': core.csym(FAM, P + r'Eol\(\)')}
+    shapes = []
+    for n in ([1, 2, 3, 4, 5] if tier == 'quick' else [1, 2, 3, 4, 5, 6, 8, 9]):
+        wit = ['witness: ordinary identifier']
+        if n >= 2: wit.append('witness: not an identifier')
+        if n in (1, 3, 4, 5, 8, 9): wit.append('witness: word literal')
+        shapes.append(dict(d, N=n, _tag='N=%d,symbolic' % n, _witness=tuple(wit)))
+    col, cases = collisions(WORDS)
+    for r in col['results']:
+        if r['collision']:
+            shapes.append(dict(d, N=len(r['collision']), TEXT='"%s"' % r['collision'], _tag='collides_with=%s:%s' % (r['keyword'], r['collision']), _witness=('witness: ordinary identifier',)))
+    return Harness('I5.Id', FAM, [rx], 'c16_id.c', stubs=EE + [P + r'SkipWS\(', P + r'make_node<', r'chaiscript::const_var', P + r'validate_object_name', P + r'Eol\(\)',
+                   r'std::vector<std::unique_ptr<chaiscript::eval::AST_Node_Impl<.*::(push_back|emplace_back)', r'chaiscript::Boxed_Value::Boxed_Value<'],
+                   shapes=shapes, opts=['--unwind', '12'], timeout=600, mem_gb=8, string_model=True, defines={'STRING_LITERALS_OPAQUE': 1}, inputs=['buf', 'validate', 'line', 'col'],
+                   note='every N-byte buffer (symbolic shapes) plus the identifiers z3 found to collide with each word literal under FNV-1a (concrete shapes)')
+
 ANY = ('any', None)
 ESC = ('esc', "((c)=='\\\\'||(c)=='x'||(c)=='u'||(c)=='U'||(c)=='0'||(c)=='7'||(c)=='8'||(c)=='F'||(c)=='f'||(c)=='D'||(c)=='d'||(c)=='1'||(c)=='n'||(c)=='q'||(c)=='$'||(c)=='{')")
 
 def harnesses(tier):
     hs = []
+    hs.append(buildint_harness())
     hs.append(escape_step_harness())
+    hs.append(id_harness(tier))
     if tier == 'quick': hs.append(escape_harness([1, 2], [ANY]))
     else: hs.append(escape_harness([1, 2, 3], [ANY])); hs.append(escape_harness_named('I4.Char_Parser.long', [4, 5], [ESC]))
     return hs
